@@ -159,7 +159,8 @@ func HandleBulkBody(postBody []byte, ctx *fasthttp.RequestCtx, rid uint64, myid 
 	remainingPostBody := postBody
 	for {
 		line, remainingPostBody = utils.ReadLine(remainingPostBody)
-		if len(remainingPostBody) == 0 {
+		if len(line) == 0 && len(remainingPostBody) == 0 {
+			// end of the body; an action on the last line still gets its item
 			break
 		}
 
